@@ -22,10 +22,17 @@ pub mod common {
 pub mod props {
     #[path = "/verif/harness/src/props/c02.rs"]
     pub mod c02;
+    #[path = "/verif/harness/src/props/c04.rs"]
+    pub mod c04;
+    #[path = "/verif/harness/src/props/c20.rs"]
+    pub mod c20;
 }
 
 mod areader;
 mod t02;
+mod t04;
+mod t20;
+mod tserver;
 
 use engine::{Ctx, Tier};
 
@@ -55,6 +62,8 @@ fn main() {
         let kind = v["kind"].as_str().unwrap_or("").to_string();
         let fails = match id.as_str() {
             "C02" => t02::replay(&ctx, &kind, &v["case"]),
+            "C04" => t04::replay(&ctx, &kind, &v["case"]),
+            "C20" => t20::replay(&ctx, &kind, &v["case"]),
             _ => vec![engine::Fail::new("harness", "no tokio replay for this property")],
         };
         let mut code = 0;
@@ -83,6 +92,8 @@ fn main() {
     ctx.replay_tag = "tokio-";
     match id.as_str() {
         "C02" => t02::run(&ctx),
+        "C04" => t04::run(&ctx),
+        "C20" => t20::run(&ctx),
         _ => {
             eprintln!("no tokio twin for {}", id);
             std::process::exit(2);
